@@ -5,6 +5,8 @@ Writes seeded/RESULTS.json (which check reported what)."""
 import json, pathlib, subprocess, sys, time
 HERE = pathlib.Path(__file__).resolve().parent.parent
 only = sys.argv[1:]
+# commit of /verif that last changed the engine or the contracts: says which machinery gave the verdict
+ENGINE = subprocess.run(["git", "-C", str(HERE), "log", "-1", "--format=%h", "--", "pyvc", "contracts"], capture_output=True, text=True).stdout.strip()
 out = {}
 if only and (HERE / "seeded" / "RESULTS.json").exists():
     out = json.loads((HERE / "seeded" / "RESULTS.json").read_text())     # partial re-run: keep the other entries
@@ -22,6 +24,7 @@ for d in sorted((HERE / "seeded").iterdir()):
     rc = [l for l in txt.splitlines() if l.startswith("exit=")]
     out[d.name] = {"checked_by": pid, "exit": rc[-1].split("=")[1] if rc else ("patch does not apply" if "DOES NOT APPLY" in txt else "?"),
                    "violations": len(viol), "with_failing_input": len(with_input),
-                   "first": (with_input or viol or [""])[0][:200], "seconds": round(time.time() - t0)}
+                   "first": (with_input or viol or [""])[0][:200], "seconds": round(time.time() - t0),
+                   "engine": ENGINE}
     print(d.name, out[d.name], flush=True)
     (HERE / "seeded" / "RESULTS.json").write_text(json.dumps(out, indent=1))
